@@ -221,6 +221,70 @@ def make_msg(m):
     return mido.Message(kind)      # clock start stop continue active_sensing reset tune_request
 
 
+UNIT = 2 ** 20          # virtual instants are integers in units of 2^-20 s: every reading is an exact float
+
+import time as _real_time
+import isobar.io.midi.input as midi_input_module
+
+
+class MidiVirtualTime:
+    """stands in for the `time` module seen by isobar.io.midi.input (and, while a callback runs, for time.time /
+    monotonic / perf_counter of the real module): every reading is the instant scripted for the message being
+    handled, plus `intra` units per reading already taken (time passing inside the callback)."""
+    def __init__(self):
+        self.now, self.intra, self.reads = 0, 0, 0
+    def _read(self):
+        v = self.now
+        self.now += self.intra
+        self.reads += 1
+        return v
+    def time(self):
+        return self._read() / UNIT
+    monotonic = perf_counter = time
+    def time_ns(self):
+        return self._read() * 10 ** 9 // UNIT
+    monotonic_ns = perf_counter_ns = time_ns
+    def sleep(self, seconds):
+        pass
+    def __getattr__(self, name):
+        return getattr(_real_time, name)
+
+
+_PATCHED = ("time", "monotonic", "perf_counter", "time_ns", "monotonic_ns", "perf_counter_ns")
+
+def timed_callback(dev, vt, message, instant, intra):
+    """dev._callback(message) with the wall clock standing at `instant` (units); returns the exception class name or None"""
+    vt.now, vt.intra = instant, intra
+    saved_mod = midi_input_module.time
+    saved = {n: getattr(_real_time, n) for n in _PATCHED}
+    midi_input_module.time = vt
+    for n in _PATCHED:
+        setattr(_real_time, n, getattr(vt, n))
+    try:
+        dev._callback(message)
+        return None
+    except Exception as e:
+        return e
+    finally:
+        for n in _PATCHED:
+            setattr(_real_time, n, saved[n])
+        midi_input_module.time = saved_mod
+
+
+def tempo_obs(dev):
+    """MidiInputDevice.tempo as an exact ratio [num, den], None, or a string for anything else"""
+    try:
+        t = dev.tempo
+    except Exception as e:
+        return "raises " + type(e).__name__
+    if t is None:
+        return None
+    if isinstance(t, (int, float)) and t == t and t not in (float("inf"), float("-inf")):
+        n, d = float(t).as_integer_ratio()
+        return [n, d]
+    return repr(t)[:40]
+
+
 def run_midi_in(case):
     calls = []
     class Target:
@@ -235,18 +299,24 @@ def run_midi_in(case):
     user = []
     if case["has_cb"]:
         dev.callback = lambda m: user.append(ident.get(id(m), -1))
-    per_msg = []
-    for m in msgs:
+    vt = MidiVirtualTime()
+    per_msg, exc, tempos = [], [], []
+    for j, m in enumerate(msgs):
         n0 = len(calls)
-        dev._callback(m)
+        e = timed_callback(dev, vt, m, case["times"][j], case.get("intra", 0))
+        if e is not None:
+            exc.append([j, type(e).__name__])
         per_msg.append(calls[n0:])
+        if case["msgs"][j][0] == "clock":
+            tempos.append(tempo_obs(dev))
     queue = []
     while True:
         m = dev.poll()
         if m is None:
             break
         queue.append(ident.get(id(m), -1))
-    return {"calls": calls, "per_msg": per_msg, "user": user, "queue": queue, "ticks_per_beat": dev.ticks_per_beat}
+    return {"calls": calls, "per_msg": per_msg, "user": user, "queue": queue, "ticks_per_beat": dev.ticks_per_beat,
+            "exc": exc, "tempos": tempos}
 
 
 def run_midi_tl(case):
@@ -256,19 +326,20 @@ def run_midi_tl(case):
     tl = iso.Timeline(output_device=devs[0], clock_source=midi_in)
     for d in devs[1:]:
         tl.add_output_device(d)
-    obs, code = [], 0
-    for m in case["msgs"]:
+    vt = MidiVirtualTime()
+    obs, code, exc = [], 0, []
+    for j, m in enumerate(case["msgs"]):
         del log[:]
-        try:
-            midi_in._callback(make_msg(m))
-        except Exception as e:
-            code = err_code(e)
-            obs.append([list(log), round(tl.current_time * 24)])
-            break
+        e = timed_callback(midi_in, vt, make_msg(m), case["times"][j], case.get("intra", 0))
         obs.append([list(log), round(tl.current_time * 24)])
-    if not isinstance(code, int):
-        return {"error": code}
-    return {"obs": obs, "code": code, "ticks_per_beat": tl.ticks_per_beat}
+        if e is not None:
+            code = err_code(e)
+            if not isinstance(code, int):        # not a ClockException / StopIteration: recorded, the run goes on
+                exc.append([j, code])
+                code = 0
+                continue
+            break
+    return {"obs": obs, "code": code, "ticks_per_beat": tl.ticks_per_beat, "exc": exc}
 
 
 def guarded(f, case):
